@@ -81,7 +81,7 @@ def build_job(job, wd):
         try:
             ll2c.OPTS['narrow'] = job.get('narrow', 0)
             mod = ll2c.parse_module(open(ll).read())
-            roots = [n for n in mod.forder if not re.match(r'@_Z|@__|@_GLOBAL', n)]
+            roots = job.get('roots') or [n for n in mod.forder if not re.match(r'@_Z|@__|@_GLOBAL', n)]
             csrc, ext = ll2c.translate(mod, roots)
             stats = dict(ll2c.translate.stats); funcs = list(ll2c.translate.functions)
         except Exception as e:
@@ -169,10 +169,12 @@ def profile_bounds(job, wd, inputs, cfiles, inc, dfl):
     """Loop-bound HINTS from a few concrete runs of the same harness under cbmc (no verdict is taken from them: every bound
     used later is checked by an unwinding assertion in the symbolic run and raised if it fails)."""
     # pick a spread of samples: distinct outputs first
-    seen = {}; picks = []
+    seen = {}; picks = []; rest = []
+    want = job.get('profile_samples', 32)
     for vals, outs in inputs:
         if outs not in seen: seen[outs] = 1; picks.append(vals)
-        if len(picks) >= job.get('profile_samples', 12): break
+        elif vals not in rest: rest.append(vals)
+    picks = (picks + rest)[:want]
     mx = {}
     def one(vals):
         cmd = ['cbmc'] + cfiles + inc + dfl + ['-DVERIF_FIXED=' + ','.join('%dULL' % v for v in vals), '--unwind', '80', '--no-malloc-may-fail', '--drop-unused-functions',
@@ -194,6 +196,7 @@ PROP_RE = re.compile(r'^\[([^\]]+)\] (?:line (\d+) )?(.*): (SUCCESS|FAILURE|UNKN
 
 def classify(name, desc):
     if 'WITNESS:' in desc: return 'WITNESS'
+    if 'UBNOTE:' in desc: return 'UBNOTE'
     if 'NARROW:' in desc: return 'BOUND'
     if 'BOUND:' in desc or '.unwind.' in name or 'unwinding assertion' in desc: return 'BOUND'
     if 'recursion' in desc and 'unwinding' in desc: return 'BOUND'
@@ -241,6 +244,8 @@ def run_cbmc_once(job, wd, tier, cfiles, inc, dfl, bounds, names, tmo):
         c = classify(nm, p['desc']); p['class'] = c
         d = res['by_class'].setdefault(c, {'SUCCESS': 0, 'FAILURE': 0, 'UNKNOWN': 0}); d[p['status']] += 1
         if p['status'] != 'SUCCESS': failed.append((nm, p))
+    res['unknown'] = [(nm, p) for nm, p in failed if p['status'] == 'UNKNOWN']
+    failed = [(nm, p) for nm, p in failed if p['status'] == 'FAILURE']
     res['failed'] = [(nm, p['class'], p['desc']) for nm, p in failed]
     res['traces'] = {nm: traces.get(nm) for nm, p in failed if p['class'] in ('PROP', 'SAFETY')}
     res['prop_descs'] = sorted(set(p['desc'] for p in props.values() if p['class'] == 'PROP'))
@@ -256,12 +261,14 @@ def run_cbmc(job, wd, tier, inputs):
     t0 = time.time()
     hints = profile_bounds(job, wd, inputs, cfiles, inc, dfl)
     bounds = {nm: hints.get(nm, 0) + 1 + job.get('unwind_margin', 0) for nm in names}
+    for nm in names:   # loops of the harness / oracle / runtime (not translated code): constant trip counts, give them a floor
+        if not nm.startswith('F_'): bounds[nm] = max(bounds[nm], job.get('harness_unwind', 12))
     for rx, b in job.get('unwind_rules', []):
         for nm in names:
             if re.search(rx, nm): bounds[nm] = max(bounds[nm], b)
     tmo = job['timeout'][tier] if isinstance(job.get('timeout'), dict) else job.get('timeout', 600)
     rounds = []
-    for rnd in range(job.get('refine_rounds', 5)):
+    for rnd in range(job.get('refine_rounds', 8)):
         res = run_cbmc_once(job, wd, tier, cfiles, inc, dfl, bounds, names, tmo)
         rounds.append({'wall_s': res['wall_s'], 'status': res['status'], 'rss_mb': res.get('rss_mb')})
         if res['status'] != 'DONE': break
@@ -270,7 +277,7 @@ def run_cbmc(job, wd, tier, inputs):
             m = re.match(r'(.*)\.unwind\.(\d+)$', nm)
             if cls == 'BOUND' and m: grow.append('%s.%s' % (m.group(1), m.group(2)))
         if not grow: break
-        for nm in grow: bounds[nm] = bounds.get(nm, 1) + 2   # bound too small: reported by the unwinding assertion, raised, re-run
+        for nm in grow: bounds[nm] = bounds.get(nm, 1) + 3   # bound too small: reported by the unwinding assertion, raised, re-run
         res['refined'] = grow
     res['rounds'] = rounds; res['t_profile_and_rounds'] = round(time.time() - t0, 1); res['bound_hints_from_concrete_runs'] = len(hints)
     return res
@@ -331,6 +338,10 @@ def do_job(prop, job, tier, seed, keep):
         wit = [f for f in c['failed'] if f[1] == 'WITNESS']
         if not wit: raise Inconclusive('VACUOUS: the reachability witness at the end of the harness was not reachable')
         unrep = []
+        ubn = [f for f in c['failed'] if f[1] == 'UBNOTE']
+        if ubn: r['notes'].append({'standard_level_UB_not_confirmable_by_sanitizers': [(f[0][-70:], f[2]) for f in ubn[:6]]})
+        unk = [nm for nm, p in c.get('unknown', [])]
+        if unk: raise Inconclusive('%d properties left UNKNOWN by cbmc (after a fatal built-in check failed): %s' % (len(unk), unk[:3]))
         for nm, cls, desc in c['failed']:
             if cls not in ('PROP', 'SAFETY'): continue
             vals = c['traces'].get(nm)
